@@ -382,7 +382,7 @@ func (r *Result) writeEvidence(all []*Obligation, rules []*RuleInfo, analysed ma
 		"seed":        r.Seed,
 		"level":       "other",
 		"coverage": map[string]interface{}{
-			"explanation":            r.Explain,
+			"explanation":            r.Explain + ruleList(rules),
 			"obligations":            len(all),
 			"discharged":             discharged,
 			"evaluations":            len(all),
@@ -429,4 +429,20 @@ func globMatch(pat, s string) bool {
 		s = s[j+len(p):]
 	}
 	return true
+}
+
+// ruleList appends the ids of the rules that had instances in this run (their one-line
+// definitions are under coverage.rules), so that the explanation never lags behind the registry.
+func ruleList(rs []*RuleInfo) string {
+	var ids []string
+	for _, r := range rs {
+		if r.Count > 0 && !strings.Contains(r.ID, ".") {
+			ids = append(ids, r.ID)
+		}
+	}
+	if len(ids) == 0 {
+		return ""
+	}
+	sort.Strings(ids)
+	return " Rules with instances in this run (definitions under coverage.rules): " + strings.Join(ids, ", ") + "."
 }
